@@ -30,6 +30,10 @@ type Prog struct {
 	typeIndex    map[string]types.Type
 	pkgDirs      map[string]string
 	mutGlobals   map[*ssa.Global]bool // package-level variables assigned outside package initialisers
+	baseLoops    map[string][]string // baseline/loops.json: per loop, the variables carried through it without an invariant
+	seenLoops    map[string][]string // the same for the current tree (written with -write-ledger)
+	loopMu       sync.Mutex
+	everWritten  map[*ssa.Global]bool // package-level variables that are stored to or whose address is used (other than for a load) anywhere
 	noExport     map[string]bool      // ensures obligations with an open known finding: never assumed at call sites
 	ghostSets    map[*ssa.Function]map[string]bool
 	findings     map[string][]KnownFinding // by obligation name
@@ -95,6 +99,9 @@ func loadProg(repo, verifDir string) (*Prog, error) {
 		}
 	}
 	p.mutGlobals = map[*ssa.Global]bool{}
+	p.everWritten = map[*ssa.Global]bool{}
+	p.seenLoops = map[string][]string{}
+	readJSON(filepath.Join(verifDir, "baseline", "loops.json"), &p.baseLoops)
 	for fn := range ssautil.AllFunctions(prog) {
 		if fn.Pkg == nil || !strings.HasPrefix(fn.Pkg.Pkg.Path(), p.modulePath) {
 			continue
@@ -102,6 +109,37 @@ func loadProg(repo, verifDir string) (*Prog, error) {
 		isInit := fn.Name() == "init" || strings.HasPrefix(fn.Name(), "init#")
 		for _, b := range fn.Blocks {
 			for _, in := range b.Instrs {
+				// everWritten: stored to, or its address taken for anything but a load, anywhere (initialisers included)
+				if st, ok := in.(*ssa.Store); ok {
+					root := st.Addr
+					for {
+						switch x := root.(type) {
+						case *ssa.FieldAddr:
+							root = x.X
+							continue
+						case *ssa.IndexAddr:
+							root = x.X
+							continue
+						}
+						break
+					}
+					if g, ok := root.(*ssa.Global); ok {
+						p.everWritten[g] = true
+					}
+					if g, ok := st.Val.(*ssa.Global); ok {
+						p.everWritten[g] = true
+					}
+				} else {
+					for _, op := range in.Operands(nil) {
+						if g, ok := (*op).(*ssa.Global); ok {
+							switch in.(type) {
+							case *ssa.UnOp:
+							default:
+								p.everWritten[g] = true
+							}
+						}
+					}
+				}
 				if st, ok := in.(*ssa.Store); ok && !isInit {
 					root := st.Addr
 					for {
@@ -463,21 +501,26 @@ func (p *Prog) verifyFunc(fn *ssa.Function) (u *Unit) {
 					}
 					g = fmt.Sprintf("(=> %s %s)", cont, g)
 				}
-				saved := s2.pc
+				saved, savedChecked := s2.pc, s2.checked
 				s2.pc = append([]string{}, saved...)
 				u.oblige(s2, labelWithFn(c.Label, u.fnShort(fn))+".preserved", c.Props, "ensures", g, pos)
-				s2.pc = saved
+				s2.pc, s2.checked = saved, savedChecked
 				continue
 			}
 			g, err := env.formula(c.Expr)
 			if err != nil {
+				if c.Kind == "ensures-local" {
+					// nothing depends on a local postcondition: only this clause is lost, not the unit
+					u.unboundClause(c, err)
+					continue
+				}
 				panic(abortUnit{fmt.Sprintf("%s:%d: %v", c.File, c.Line, err)})
 			}
 			// oblige appends the goal to pc; ensures are independent, so restore pc afterwards
-			saved := s2.pc
+			saved, savedChecked := s2.pc, s2.checked
 			s2.pc = append([]string{}, saved...)
 			u.oblige(s2, labelWithFn(c.Label, u.fnShort(fn)), c.Props, "ensures", g, pos)
-			s2.pc = saved
+			s2.pc, s2.checked = saved, savedChecked
 		}
 	})
 	return u
@@ -592,6 +635,15 @@ func (p *Prog) ghostsSetByCall(c *ssa.CallCommon) map[string]bool {
 	if fc == nil {
 		if f2 := p.cs.Funcs[fmt.Sprintf("%s/%d", name, len(c.Args))]; f2 != nil && f2.Lib {
 			fc = f2
+		}
+	}
+	if name == "dynamic" {
+		// a call through a package-level function variable of the module that nothing ever assigns (a hook that is
+		// nil by default) cannot happen: the variable holds nil and the code has tested it
+		if ld, ok := c.Value.(*ssa.UnOp); ok {
+			if g, ok := ld.X.(*ssa.Global); ok && g.Pkg != nil && strings.HasPrefix(g.Pkg.Pkg.Path(), p.modulePath) && !p.everWritten[g] {
+				return m
+			}
 		}
 	}
 	if fc == nil && name == "dynamic" {
@@ -743,4 +795,23 @@ func (p *Prog) callRuleUnits() []*Unit {
 		out = append(out, u)
 	}
 	return out
+}
+
+// unboundClause records a clause that could not be evaluated against the current code (it names something the code no
+// longer has). Only for clause kinds nothing else depends on (ensures-local, at-call): the obligations of that clause
+// are then undecided, everything else in the unit is checked as usual.
+func (u *Unit) unboundClause(c Clause, err error) {
+	msg := fmt.Sprintf("%s:%d: clause %s: %v", filepath.Base(c.File), c.Line, c.Label, err)
+	for _, x := range u.unbound {
+		if x.msg == msg {
+			return
+		}
+	}
+	u.unbound = append(u.unbound, unboundClause{props: c.Props, label: c.Label, msg: msg})
+}
+
+type unboundClause struct {
+	props []string
+	label string
+	msg   string
 }
